@@ -14,7 +14,7 @@ PROPERTY = 'C15'
 LEVEL = 'exploration'
 RULE = ('Model-based histories: a generated list of 1-12 operations is applied to ONE long-lived WMM object per frame (NED or '
         'ENU), exactly like a rule-based state machine (the list shrinks as one value and is the replay file). Operations: '
-        'query through the method with a float date on the tenth-of-a-year grid, an int year, or a datetime.date; query with the '
+        'query through the method with a float date on the tenth-of-a-year grid or off it (next to the rounding boundaries of round(date,1), last days of a model period; fresh-object comparison only), an int year, or a datetime.date; query with the '
         'default date; query with date=None (re-uses the object\'s current date); reset_coefficients(date); reset_date(date); re-construct the object '
         'through the constructor (date, lat, lon, h, frame). After every query the elements are compared with (a) a fresh object '
         'asked the same single question (1e-9 nT) and (b) for float/int dates the independent spherical-harmonic oracle of C14; '
@@ -23,7 +23,7 @@ RULE = ('Model-based histories: a generated list of 1-12 operations is applied t
         'Non-trivial: >= 3 queries of which >= 1 changes the coefficient file; distinct = case hash.')
 ASSUMPTIONS = ['the default-date query depends on the import-time date, identically for the long-lived and the fresh object',
                'datetime.date inputs are compared with a fresh object only (their decimal-year conversion is the package\'s definition)']
-REQUIRED_LABELS = ['history:reset_date_then_date_none', 'history:op=method_none', 'history:op=construct', 'history:epoch_change', 'history:lat0_or_lon0', 'history:frame=ENU']
+REQUIRED_LABELS = ['history:date=offgrid_float', 'history:reset_date_then_date_none', 'history:op=method_none', 'history:op=construct', 'history:epoch_change', 'history:lat0_or_lon0', 'history:frame=ENU']
 
 
 def _place():
@@ -34,6 +34,11 @@ def _date():
     return st.one_of(
         st.tuples(st.just('float'), st.integers(0, 150).map(lambda k: 2015 + k/10)),
         st.tuples(st.just('float'), st.sampled_from([2019.9, 2020.0, 2024.9, 2025.0, 2030.0, 2015.0])),
+        # floats off the tenth-of-a-year grid (the model quantises time to round(date, 1)): next to the rounding boundaries, in the
+        # last days of a coefficient file's period, anywhere; judged against a fresh object only
+        st.tuples(st.just('float'), st.tuples(st.integers(0, 149), st.sampled_from([0.049, 0.0499, 0.0501, 0.051, 0.0999, 0.099, 0.001, 0.02, 0.08])).map(lambda t: 2015 + t[0]/10 + t[1])),
+        st.tuples(st.just('float'), st.sampled_from([2019.999, 2024.999, 2019.951, 2024.949, 2029.999])),
+        st.tuples(st.just('float'), gen.fl(2015.0, 2029.999)),
         st.tuples(st.just('int'), st.integers(2015, 2030)),
         st.tuples(st.just('date'), st.tuples(st.integers(2015, 2029), st.integers(1, 12), st.integers(1, 28))))
 
@@ -52,6 +57,10 @@ def _op():
 def _case():
     return st.fixed_dictionaries({'frame': st.sampled_from(['NED', 'ENU', 'ned', 'enu']),
                                   'init': _date(), 'ops': st.lists(_op(), min_size=1, max_size=12)})
+
+
+def _on_grid(x):
+    return abs(float(x)*10 - round(float(x)*10)) < 1e-6
 
 
 def _mk_date(d):
@@ -95,11 +104,13 @@ def evaluate(case, ctx):
         if lat == 0.0 or lon == 0.0:
             ctx.label('lat0_or_lon0')
         route = kind
+        if kind in ('method', 'construct') and not isinstance(_mk_date(op[2]), datetime.date) and not _on_grid(_mk_date(op[2])):
+            ctx.label('date=offgrid_float')
         if kind == 'method':
             d = _mk_date(op[2])
             okq, _ = ctx.call('method', lambda: w.magnetic_field(lat, lon, h, date=d))
             fresh = lambda: _fresh_method(WMM, frame, lat, lon, h, ('date', d))
-            oracle_date = float(d) if not isinstance(d, datetime.date) else None
+            oracle_date = float(d) if not isinstance(d, datetime.date) and _on_grid(d) else None
         elif kind == 'method_default':
             okq, _ = ctx.call('method_default', lambda: w.magnetic_field(lat, lon, h))
             fresh = lambda: _fresh_method(WMM, frame, lat, lon, h, ('default', None))
@@ -120,7 +131,7 @@ def evaluate(case, ctx):
             if okq:
                 w = w2
             fresh = lambda: _fresh_method(WMM, frame, lat, lon, h, ('date', d))
-            oracle_date = float(d) if not isinstance(d, datetime.date) else None
+            oracle_date = float(d) if not isinstance(d, datetime.date) and _on_grid(d) else None
         pending_reset_date = False
         if not okq:
             return
